@@ -73,6 +73,8 @@ static int alg_dim(const vh_args_t *a) {
 /* ------------------------------------------------------------------ elim */
 enum { E_NAIVE, E_M4RI, E_PLUQ, E_HYBRID, E__M4RI, E_TOP, E_NOPS };
 
+static int force_vwide;   /* this case: a matrix wider than eight times the smallest L1 */
+
 static void elim_case(const vh_args_t *a, int op) {
   int m = alg_dim(a), n = alg_dim(a);
   if (a->tier == 0 && (long)m * n > 260L * 200) { if (m > n) m = m / 2 + 1; else n = n / 2 + 1; }
@@ -86,6 +88,7 @@ static void elim_case(const vh_args_t *a, int op) {
      * PLUQ-based reduction) rounds down to nothing there */
     if (vh_randint(0, 5) == 0) { m = vh_randint(3, 8); n = 33000 + vh_randint(0, 200); }
   }
+  if (force_vwide) { wide = 1; m = vh_randint(3, 8); n = 33000 + vh_randint(0, 200); }
   /* full row rank with a multiple of 64 rows and more columns than rows (the PLUQ-based reduction treats a rank that is a
    * multiple of the word size separately) */
   int fullrow = !wide && vh_randint(0, 7) == 0;
@@ -223,7 +226,10 @@ int fam_elim(const vh_args_t *a) {
     if (!VH_SHARD(a, idx)) continue;
     vh_case_seed(a, idx);
     VH_CASE(idx)
-    elim_case(a, (int)(idx % E_NOPS));
+    /* (a fixed share of the cases: the PLUQ-based and the hybrid reduction on a very wide matrix) */
+    force_vwide = (idx % 53 == 11);
+    elim_case(a, force_vwide ? ((idx / 53) % 2 ? E_HYBRID : E_PLUQ) : (int)(idx % E_NOPS));
+    force_vwide = 0;
     VH_CASE_END
   }
   if (strstr(a->extra, "huge")) {
